@@ -48,6 +48,11 @@ partial def treeOf : Sexp → Option Tree
             pure (k, t)
         | _ => Option.none
       pure (.node .dict ks)
+  -- review v4 2.1: `DS` = an instance of a user SUBCLASS of dict, `DD` = a `collections.defaultdict`.  The statement knows one
+  -- kind of dict ("nested list/dict arguments"), so does the model: both are read as a dict, and the reply spells a plain `D`
+  -- (the harness checks on the implementation's side that the container comes back as an instance of the SAME class).
+  | .node (.atom "DS" :: kvs) => treeOf (.node (.atom "D" :: kvs))
+  | .node (.atom "DD" :: kvs) => treeOf (.node (.atom "D" :: kvs))
   | _ => Option.none
 
 partial def treeTo : Tree → Sexp
